@@ -61,6 +61,10 @@ func (it item) String() string {
 	return fmt.Sprintf("{%s %s daemon=%d op=%s}", it.loc, it.mode, it.daemon, it.lastOp)
 }
 
+// metaFinite says whether the meta pins of the running case carry finite
+// replication factors.
+var metaFinite bool
+
 func mkPin(c cid.Cid, loc string, mode api.PinMode) *api.Pin {
 	p := api.PinWithOpts(c, api.PinOptions{Mode: mode, Name: "n-" + loc})
 	switch loc {
@@ -73,8 +77,16 @@ func mkPin(c cid.Cid, loc string, mode api.PinMode) *api.Pin {
 		p.ReplicationFactorMin, p.ReplicationFactorMax = 1, 1
 		p.Allocations = []peer.ID{other}
 	case "meta":
+		// a meta pin carries the user's replication factors (everywhere, or
+		// a finite pair as after 'add --shard --replication-min 1') and never
+		// any allocations
 		p.Type = api.MetaType
 		p.Reference = &gen.Cids[9]
+		if metaFinite {
+			p.ReplicationFactorMin, p.ReplicationFactorMax = 1, 2
+		} else {
+			p.ReplicationFactorMin, p.ReplicationFactorMax = -1, -1
+		}
 	}
 	return p
 }
@@ -111,6 +123,7 @@ func TestLocalViews(t *testing.T) {
 		// worker, kept busy by two filler pins while the items' operations
 		// arrive: those meant to hit the full queue are refused with
 		// ErrFullQueue, which is a failed last operation
+		metaFinite = rapid.Bool().Draw(t, "metaFinite")
 		saturate := rapid.IntRange(0, 2).Draw(t, "saturate") == 0
 		f := fakes.NewTracker(self, 100, 2)
 		if saturate {
